@@ -905,6 +905,9 @@ class MatchTempoIndication(MatchParameter):
     def __str__(self):
         return self.value
 
+    def __eq__(self, ti: MatchTempoIndication) -> bool:
+        return isinstance(ti, MatchTempoIndication) and self.value == ti.value
+
     @classmethod
     def from_string(cls, string: str) -> MatchTempoIndication:
         content = interpret_as_list(string)
@@ -912,7 +915,7 @@ class MatchTempoIndication(MatchParameter):
 
 
 def interpret_as_tempo_indication(value: str) -> MatchTempoIndication:
-    tempo_indication = MatchTempoIndication.from_string(value)
+    tempo_indication = MatchTempoIndication(value)
     return tempo_indication
 
 
